@@ -2,8 +2,8 @@ SETUP_CMD = './setup.sh'
 HOOKS = dict(guard='--cfg rbpf_verif', enable='RUSTFLAGS="--cfg rbpf_verif" (set by engine/driver.py when it builds /verif/driver against /repo)',
              baseline_off_cmd='cd /repo && cargo test --workspace --no-fail-fast --offline', source_commits=[], add_only=True)
 ENGINES = [
- dict(name='mirsym', path='engine/mirsym.py', serves_properties=['C01', 'C02'], kind_free_text='symbolic executor for rustc MIR text -> z3 (bit-vector + array theory)'),
- dict(name='driver', path='driver/', serves_properties=['C01', 'C02'], kind_free_text='native replay driver (never a deciding step)'),
+ dict(name='mirsym', path='engine/mirsym.py', serves_properties=['C01', 'C02', 'C05', 'C06'], kind_free_text='symbolic executor for rustc MIR text -> z3 (bit-vector + array theory)'),
+ dict(name='driver', path='driver/', serves_properties=['C01', 'C02', 'C05', 'C06'], kind_free_text='native replay driver (never a deciding step)'),
 ]
 NOTES = 'Solver-based checking of the real code: see DESIGN.md. Exit codes: 0 held, 1 reproduced violation, 2 inconclusive/machinery.'
 INTERP_NOTE = ('Trusted: rustc MIR as the meaning of the source; mirsym intrinsic table; z3; the reference semantics transcribed from the '
@@ -21,5 +21,16 @@ CHECKS = {
    text='For every load/store/atomic instruction and width: every access actually performed lies wholly inside packet, metadata buffer, stack or a registered range; an access wholly inside a region is never refused; '
         'a refused access returns Err with an empty write log and never panics; the address is reg+sext(off) (packet+imm[+src]). Region bases/lengths and 2 (quick) / 3 (thorough) registered ranges are symbolic.',
    note=INTERP_NOTE),
+ 'C05': dict(level='model_checking', engine='mirsym', design_ref='DESIGN.md 5/C05',
+   technique='symbolic execution of the MIR of verifier::check and of interpreter::execute_program; the extracted acceptance formula of the real verifier is the assumption of the interpreter step; z3 shows no panic path and invariant preservation',
+   text='For all 256 opcode byte values: A(pc) (the condition under which the real verifier loop body does not reject the slot, extracted from MIR) and the extracted Ok condition of check_prog_len are assumed; '
+        'z3 shows that no path of one interpreter iteration is a panic/unreachable (register index, get_insn range, unreachable!() arms, every arithmetic overflow assert in the dev profile) and that the loop invariant '
+        '(pc inside the program and on an instruction start, depth <= 8, frame-pointer equation, valid saved return addresses) is preserved; both profiles.',
+   note=INTERP_NOTE + ' Paper lemma: in an accepted program a position that is not an instruction start has opcode 0 (used through instances).'),
+ 'C06': dict(level='model_checking', engine='mirsym', design_ref='DESIGN.md 5/C06',
+   technique='symbolic execution of the MIR of verifier::check (check_prog_len, one loop iteration at a symbolic index, loop exit) + z3 equivalence with the well-formedness predicate of the statement, for each of the 256 opcode bytes',
+   text='check_prog_len Ok <=> length/last-instruction clause; loop body at any index i of a program of any length: not rejected <=> L(i) clause by clause, next index i+1 / i+2, never a panic; loop exit verdict. '
+        'Program length, index, register byte, offset, immediate and the opcode at the jump/call target are symbolic (no length bound).',
+   note='Trusted: rustc MIR, mirsym intrinsic table, z3, the transcription of the statement. accept <=> WF for whole programs is the induction over the loop (paper step).'),
 }
 NOT_APPLICABLE = {}
